@@ -68,19 +68,24 @@ func TestVerifReplayGetData(t *testing.T) {
 	}
 	var stored []*cache.Update
 	for _, ifn := range []string{"ethernet-1/1", "ethernet-1/10", "ethernet-1/2"} {
-		stored = append(stored, cache.NewUpdate([]string{"interface", ifn, "name"}, sv(ifn), 10, "o", 0))
-		stored = append(stored, cache.NewUpdate([]string{"interface", ifn, "description"}, sv("d-"+ifn), 10, "o", 0))
+		stored = append(stored, cache.NewUpdate([]string{"interface", ifn, "name"}, sv(ifn), 0, "", 0))
+		stored = append(stored, cache.NewUpdate([]string{"interface", ifn, "description"}, sv("d-"+ifn), 0, "", 0))
 	}
+	// the device runs case2 of /choices while an intent holds a leaf of case1: what is stored is what is returned
+	bv, _ := proto.Marshal(&sdcpb.TypedValue{Value: &sdcpb.TypedValue_BoolVal{BoolVal: true}})
+	stored = append(stored, cache.NewUpdate([]string{"choices", "case2", "log"}, bv, 0, "", 0))
+	intended := []*cache.Update{cache.NewUpdate([]string{"choices", "case1", "case-elem", "elem"}, sv("v"), 5, "x", 0)}
 	ifPath := func(n string) *sdcpb.Path {
 		return &sdcpb.Path{Elem: []*sdcpb.PathElem{{Name: "interface", Key: map[string]string{"name": n}}}}
 	}
 	requests := map[string][]*sdcpb.Path{
 		"one entry": {ifPath("ethernet-1/1")},
-		"two entries, one key a prefix of the other": {ifPath("ethernet-1/1"), ifPath("ethernet-1/10")},
-		"the same, other order":                      {ifPath("ethernet-1/10"), ifPath("ethernet-1/1")},
-		"entry and a leaf below it":                  {ifPath("ethernet-1/2"), {Elem: []*sdcpb.PathElem{{Name: "interface", Key: map[string]string{"name": "ethernet-1/2"}}, {Name: "description"}}}},
-		"whole list":                                 {{Elem: []*sdcpb.PathElem{{Name: "interface"}}}},
-		"unknown path":                               {{Elem: []*sdcpb.PathElem{{Name: "nosuchthing"}}}},
+		"two entries, one key a prefix of the other":              {ifPath("ethernet-1/1"), ifPath("ethernet-1/10")},
+		"the same, other order":                                   {ifPath("ethernet-1/10"), ifPath("ethernet-1/1")},
+		"entry and a leaf below it":                               {ifPath("ethernet-1/2"), {Elem: []*sdcpb.PathElem{{Name: "interface", Key: map[string]string{"name": "ethernet-1/2"}}, {Name: "description"}}}},
+		"whole list":                                              {{Elem: []*sdcpb.PathElem{{Name: "interface"}}}},
+		"container with a choice, an intent holds the other case": {{Elem: []*sdcpb.PathElem{{Name: "choices"}}}},
+		"unknown path":                                            {{Elem: []*sdcpb.PathElem{{Name: "nosuchthing"}}}},
 	}
 	n := 0
 	for rname, paths := range requests {
@@ -108,7 +113,7 @@ func TestVerifReplayGetData(t *testing.T) {
 					close(ch)
 					return ch
 				})
-			testhelper.ConfigureCacheClientMock(t, cc, nil, nil, nil, nil)
+			testhelper.ConfigureCacheClientMock(t, cc, intended, nil, nil, nil)
 			scl, schema, err := testhelper.InitSDCIOSchema()
 			if err != nil {
 				t.Fatal(err)
@@ -121,7 +126,7 @@ func TestVerifReplayGetData(t *testing.T) {
 					if vrgCovers(utils.ToStrings(p, false, false), u.GetPath()) {
 						sp, _ := d.schemaClient.ToPath(context.Background(), u.GetPath())
 						tv, _ := u.Value()
-						want = append(want, utils.ToXPath(sp, false)+"="+tv.GetStringVal())
+						want = append(want, utils.ToXPath(sp, false)+"="+utils.TypedValueToString(tv))
 						break
 					}
 				}
@@ -152,6 +157,8 @@ func TestVerifReplayGetData(t *testing.T) {
 			sort.Strings(want)
 			sort.Strings(got)
 			in := fmt.Sprintf("request=%s,encoding=%s", rname, enc)
+			reader := map[sdcpb.Encoding]string{sdcpb.Encoding_STRING: "(*datastore.Datastore).handleGetDataUpdatesSTRING", sdcpb.Encoding_PROTO: "(*datastore.Datastore).handleGetDataUpdatesPROTO",
+				sdcpb.Encoding_JSON: "(*datastore.Datastore).handleGetDataUpdatesJSON", sdcpb.Encoding_JSON_IETF: "(*datastore.Datastore).handleGetDataUpdatesJSON"}[enc]
 			if rname == "unknown path" {
 				if err == nil || len(got) > 0 {
 					fmt.Printf("REPLAY-FAIL fn=%s clause=invalid_path_is_refused input=%s why=err=%v, %d leaves returned\n", fn, in, err, len(got))
@@ -164,8 +171,12 @@ func TestVerifReplayGetData(t *testing.T) {
 			}
 			if strings.Join(want, "; ") != strings.Join(got, "; ") {
 				fmt.Printf("REPLAY-FAIL fn=%s clause=requestedPaths input=%s why=returned [%s], stored at or below the requested paths [%s]\n", fn, in, strings.Join(got, "; "), strings.Join(want, "; "))
+				fmt.Printf("REPLAY-FAIL fn=%s clause=answers_are_the_stored_updates input=%s why=returned [%s], stored at or below the requested paths [%s]\n", reader, in, strings.Join(got, "; "), strings.Join(want, "; "))
 			}
 		}
 	}
 	fmt.Printf("REPLAY-CASES fn=%s n=%d\n", fn, n)
+	fmt.Printf("REPLAY-CASES fn=%s n=%d\n", "(*datastore.Datastore).handleGetDataUpdatesSTRING", n/4)
+	fmt.Printf("REPLAY-CASES fn=%s n=%d\n", "(*datastore.Datastore).handleGetDataUpdatesPROTO", n/4)
+	fmt.Printf("REPLAY-CASES fn=%s n=%d\n", "(*datastore.Datastore).handleGetDataUpdatesJSON", n/2)
 }
